@@ -52,6 +52,17 @@ def rand_history(seed):
     rng = random.Random(seed)
     doc, src = open_doc(rng)
     other, src2 = open_doc(rng)
+    # real files also keep automatic styles of the ordinary families in styles.xml (used by headers and footers): the same family
+    # and name may then sit, in the two documents, in different containers of the part
+    if rng.random() < 0.4:
+        from odfdo import Style
+
+        a, b = (doc, other) if rng.random() < 0.5 else (other, doc)
+        fam = rng.choice(["paragraph", "text"])
+        cont = b.styles.get_element("//office:automatic-styles")
+        if cont is not None and a.get_style(fam, "verif_homonym") is None and b.get_style(fam, "verif_homonym") is None:
+            a.insert_style(Style(fam, name="verif_homonym"))
+            cont.append(Style(fam, name="verif_homonym"))
     events = []
     burst = rng.random() < 0.25   # many unnamed automatic styles of one family (two-digit indexes)
     for step in range(rng.randint(2, 6) if not burst else 14):
